@@ -464,6 +464,11 @@ func compileRegexExpression(expression *RegexExpression) (*compiledRegexExpressi
 			}
 			if child != nil {
 				children = append(children, *child)
+			} else {
+				// A nil-condition child is constant true (like a nil bloom
+				// condition): keep it, so an Or containing it stays true
+				// instead of degenerating into an empty (false) Or.
+				children = append(children, compiledRegexExpression{expressionType: RegexExpressionCondition})
 			}
 		}
 		return &compiledRegexExpression{
